@@ -1138,10 +1138,22 @@ def evaluate(b, case):
     # its own, the smallest set of triggers whose neutralisation makes the case pass is used (every member of a minimal
     # set is necessary, so none of them can be a defect that has been fixed) and the failure is reported under its first key.
     import itertools
-    known = []
-    for size in range(1, min(len(trig), 4) + 1):
-        for sub in itertools.combinations(trig, size):
-            known.append((sub[0], (lambda sub=sub: twin(sub))))
+
+    def minimal_set():
+        for k in trig:
+            if twin((k,)):
+                return (k,)
+        if len(trig) < 2 or not twin(tuple(trig)):
+            return None      # not explained by the known triggers, even all together
+        for size in range(2, len(trig)):
+            for sub in itertools.combinations(trig, size):
+                if twin(sub):
+                    return sub
+        return tuple(trig)
+    sub = minimal_set()
+    known = [(k, (lambda k=k: twin((k,)))) for k in trig]
+    if sub is not None and len(sub) > 1:
+        known.append((sub[0], lambda: twin(sub)))
     seen = set()
     for clause, detail, dedup in problems:
         key = (clause, dedup)
